@@ -584,6 +584,21 @@ def protocol_programs():
         "item": lambda xp, a: a[0].item() * a[1],
         "float_of_element": lambda xp, a: float(a[0]) * a[1],
         "npfloat_of_element": lambda xp, a: onp.float64(a[0]) * a[1],
+        # the scalar types the wrapped namespace exports, applied to a traced value (a cast inside the function)
+        "xp_float64_of_element": lambda xp, a: xp.float64(a[0]) * a[1],
+        "xp_float32_of_element": lambda xp, a: xp.float32(a[0]) * 1.0 * a[1],
+        "xp_double_of_element": lambda xp, a: xp.double(a[0]) * a[1],
+        "xp_float64_of_array": lambda xp, a: xp.sum(xp.float64(a) * a),
+        "xp_complex128_of_element": lambda xp, a: xp.real(xp.complex128(a[0]) * a[1]),
+        "xp_int64_of_element": lambda xp, a: xp.int64(a[0] * 10.0) * a[1],
+        "xp_bool_of_element": lambda xp, a: xp.bool_(a[0]) * a[1],
+        "builtin_float_of_sum": lambda xp, a: float(xp.sum(a)) * a[1],
+        "builtin_int_of_element": lambda xp, a: int(a[2]) * a[1],
+        "builtin_complex_of_element": lambda xp, a: complex(a[0]).real * a[1],
+        "math_exp_of_element": lambda xp, a: __import__("math").exp(a[0]) * a[1],
+        "percent_format": lambda xp, a: float("%.17g" % a[0]) * a[1],
+        "buffer_fill_loop": lambda xp, a: (lambda out: ([out.__setitem__(i, a[i] * a[i]) for i in range(3)], xp.sum(out))[1])(onp.zeros(3)),
+        "buffer_slice_assign": lambda xp, a: (lambda out: (out.__setitem__(slice(1, 4), a * a), xp.sum(out))[1])(onp.zeros(5)),
         "onp_asarray": lambda xp, a: xp.sum(onp.asarray(a) * a),
         "fstring_roundtrip": lambda xp, a: float("%r" % (a[0],)) * a[1] if not hasattr(a[0], "_value") else float(str(a[0])) * a[1],
         "iterate_rows": lambda xp, a: sum(xp.sum(r) * k for k, r in enumerate(xp.reshape(xp.concatenate([a, a * a]), (2, 3)))),
